@@ -184,7 +184,7 @@ class Program:
         L.append('    [[events]]')
         L.append(f'        stall timeout = {self.stall_timeout}')
         L.append('        abort on stall timeout = True')
-        L.append('        inactivity timeout = PT3H')
+        L.append('        inactivity timeout = PT10M')
         L.append('        abort on inactivity timeout = True')
         L.append('[scheduling]')
         if self.mode == 'integer':
